@@ -105,6 +105,7 @@ var c02Images = []c02Img{
 	{1, 1, "flat", "opaque"}, {16, 16, "noise", "opaque"}, {17, 17, "gradient", "binary"}, {33, 7, "c4", "agradient"},
 	{64, 48, "noise", "opaque"}, {100, 3, "gradient", "opaque"}, {16, 16, "c4", "binary"}, {17, 17, "noise", "anoise"},
 	{1, 1, "flat", "transparent"}, {33, 7, "noise", "few"}, {64, 48, "gradient", "agradient"}, {5, 40, "c16", "opaque"},
+	{40, 30, "noise", "late"}, {7, 5, "noise", "lastpx"},
 }
 
 type c02Case struct {
@@ -218,6 +219,10 @@ func validateEncoded(data []byte, src *image.NRGBA, o *webp.EncoderOptions) stri
 	rd, rerr := refdec.DecodeFrame(fr)
 	if rerr != nil {
 		return "independent decoder rejects the file: " + rerr.Error()
+	}
+	// a second independent implementation, when present: libwebp must accept the file too
+	if ok, aw, ah, _, aerr := arb.RGBA(data); aerr == nil && (!ok || aw != w || ah != h) {
+		return fmt.Sprintf("libwebp rejects the file Encode reported success for (accepted=%v, %dx%d)", ok, aw, ah)
 	}
 	if fr.Lossless {
 		want := rd.NRGBA
@@ -336,7 +341,7 @@ var _ = math.Abs
 
 func init() {
 	registerCases[c02Case]("C02", "exploration",
-		"image alphabet (12 pictures: sizes 1x1..100x3, opaque/binary/graded/noisy/fully transparent alpha, flat..noise) x EncoderOptions with at most D fields (coupled groups count once) away from DefaultOptions(), D=2 quick / 3 thorough, each field over its menu of valid values (21 fields, 66 non-default values); oracle = strict RIFF/VP8/VP8L validator + agreement of this package's decoder with the independent decoder",
+		"image alphabet (14 pictures: sizes 1x1..100x3, opaque/binary/graded/noisy/fully transparent alpha, flat..noise) x EncoderOptions with at most D fields (coupled groups count once) away from DefaultOptions(), D=2 quick / 3 thorough, each field over its menu of valid values (21 fields, 66 non-default values); oracle = strict RIFF/VP8/VP8L validator + agreement of this package's decoder with the independent decoder",
 		[]string{"worker count pinned to 1, pools never reuse", "independent decoder: vendored golang.org/x/image vp8/vp8l + reference ALPH decoder", "validator written from the container specification"},
 		func(e *fw.Env) int {
 			if e.Quick() {
